@@ -95,6 +95,11 @@ func notifierValue(v ssa.Value) bool {
 			}
 		case *ssa.Const:
 			return x.Value == nil
+		case *ssa.Parameter:
+			// inside a private wait helper: the channel is the caller's
+			if b, ok := curBind[x]; ok {
+				return walk(b)
+			}
 		}
 		return false
 	}
@@ -319,6 +324,9 @@ func ruleC10_1_2(c *Ctx, r *Rep) {
 	for _, s := range sites {
 		waits := notifierWaits(s.fn)
 		reads := deliveryReads(c, s.fn)
+		// the wait may have been moved into a private helper (`switch a.waitForMessages(ctx, timeout, next, awaiter)`):
+		// every way out of that call is then taken as a possible wake edge
+		waits = append(waits, helperWaits(c, s.fn, reads)...)
 		if len(waits) == 0 || len(reads) == 0 {
 			r.Fail("C10.1", "C10.1:"+s.key, s.fn.Pos(), fmt.Sprintf("waiter shape not recognised (waits on notifier: %d, delivery reads: %d)", len(waits), len(reads)))
 			continue
@@ -1036,4 +1044,50 @@ func parentOf(w ssa.Value) ssa.Value {
 		}
 	}
 	return nil
+}
+
+// helperWaits: calls in fn to unexported module helpers that wait on a notifier channel handed in by fn. Each
+// successor of the calling block becomes a wake edge (conservative: the helper's other outcomes are judged too); a
+// delivery read after the call inside the calling block has no wake edge to be judged from and is reported as such.
+func helperWaits(c *Ctx, fn *ssa.Function, reads []ssa.Instruction) []waitSite {
+	var out []waitSite
+	for _, b := range fn.Blocks {
+		for i, in := range b.Instrs {
+			call, ok := in.(*ssa.Call)
+			if !ok {
+				continue
+			}
+			h := call.Call.StaticCallee()
+			if h == nil || len(h.Blocks) == 0 || h.Object() == nil || h.Object().Exported() || !c.inModule(h) || namedAnchors[c.Key(h)] {
+				continue
+			}
+			bind := map[*ssa.Parameter]ssa.Value{}
+			for k, p := range h.Params {
+				if k < len(call.Call.Args) {
+					bind[p] = call.Call.Args[k]
+				}
+			}
+			var inner []waitSite
+			withBindMap(bind, func() { inner = notifierWaits(h) })
+			if len(inner) == 0 {
+				continue
+			}
+			readAfter := false
+			for _, later := range b.Instrs[i+1:] {
+				for _, rd := range reads {
+					if later == rd {
+						readAfter = true
+					}
+				}
+			}
+			if readAfter || len(b.Succs) == 0 {
+				out = append(out, waitSite{sel: inner[0].sel, caseIndex: inner[0].caseIndex}) // epoch nil: not locatable
+				continue
+			}
+			for _, s := range b.Succs {
+				out = append(out, waitSite{sel: inner[0].sel, caseIndex: inner[0].caseIndex, epoch: s})
+			}
+		}
+	}
+	return out
 }
